@@ -143,7 +143,7 @@ def finish(pid: str, tier: str, seed: int, prop: Any, results: List[Dict[str, An
         with open(path, "w") as f:
             json.dump(v, f, indent=1, sort_keys=True)
         print(f"VIOLATION property={pid} replay={path}")
-        print(f"  env={v['env']} config={v['config']['id']} monitor={v['monitor']} class={v['class']} ops={len(v['ops'])}: {v['detail'][:300]}")
+        print(f"  env={v['env']} config={v['config']['id']} monitor={v['monitor']} class={v['class']} ops={n_ops(v['ops'])}: {v['detail'][:300]}")
         rc = 1
     det_bad = [r["task"] for r in ok if r.get("det_ok") is False]
     for r in errors:
@@ -186,6 +186,12 @@ def finish(pid: str, tier: str, seed: int, prop: Any, results: List[Dict[str, An
     if errors or det_bad:
         return 2
     return 0
+
+
+def n_ops(ops: Any) -> int:
+    if isinstance(ops, dict):
+        return sum(len(v) for v in ops.values() if isinstance(v, list))
+    return len(ops)
 
 
 def repo_head() -> str:
